@@ -15,9 +15,15 @@ import (
 type lockedBuf struct {
 	mu sync.Mutex
 	b  bytes.Buffer
+	pt string // when set, every Write is a scheduling point of that name: the application's writer may take its time
 }
 
 func (l *lockedBuf) Write(p []byte) (int, error) {
+	if l.pt != "" {
+		// the bytes handed over are consumed only after the point: whatever the caller's buffer holds THEN is what
+		// a slow writer would see
+		vs.Point(l.pt)
+	}
 	l.mu.Lock()
 	defer l.mu.Unlock()
 	return l.b.Write(p)
@@ -83,7 +89,7 @@ func init() {
 			pd := x.Domain("plugin")
 			outR, outPW := vnet.NewPipe(64*1024, pd)
 			errR, errPW := vnet.NewPipe(64*1024, pd)
-			so, se := &lockedBuf{}, &lockedBuf{}
+			so, se := &lockedBuf{pt: "SyncStdout.Write"}, &lockedBuf{pt: "SyncStderr.Write"}
 			x.Put("so", so)
 			x.Put("se", se)
 			lo := liveOpts{proto: p["proto"], pStdout: outR, pStderr: errR, syncOut: so, syncErr: se}
